@@ -276,6 +276,48 @@ type brokenBox struct {
 	resumeAt        tree.ResumeStack
 }
 
+// brokenBoxes maps a laid out out-of-flow box to what remains of it for the next page.
+// The entries are visited in insertion order (document order): the order in which the
+// remainders are laid out decides where floats end up.
+type brokenBoxes struct {
+	order []Box
+	m     map[Box]brokenBox
+}
+
+func newBrokenBoxes() *brokenBoxes { return &brokenBoxes{m: make(map[Box]brokenBox)} }
+
+func (b *brokenBoxes) set(key Box, value brokenBox) {
+	if _, has := b.m[key]; !has {
+		b.order = append(b.order, key)
+	}
+	b.m[key] = value
+}
+
+func (b *brokenBoxes) remove(key Box) {
+	if _, has := b.m[key]; !has {
+		return
+	}
+	delete(b.m, key)
+	for i, k := range b.order {
+		if k == key {
+			b.order = append(b.order[:i:i], b.order[i+1:]...)
+			break
+		}
+	}
+}
+
+func (b *brokenBoxes) clear() {
+	b.order = nil
+	b.m = make(map[Box]brokenBox)
+}
+
+// each calls f on the entries, in insertion order
+func (b *brokenBoxes) each(f func(key Box, value brokenBox)) {
+	for _, k := range b.order {
+		f(k, b.m[k])
+	}
+}
+
 // layoutContext stores the global context needed during layout,
 // such as various caches.
 type layoutContext struct {
@@ -294,7 +336,7 @@ type layoutContext struct {
 	pageMaker           []tree.PageMaker
 	excludedShapes      *[]*bo.BoxFields
 	excludedShapesLists [][]*bo.BoxFields
-	brokenOutOfFlow     map[Box]brokenBox
+	brokenOutOfFlow     *brokenBoxes
 
 	footnotes            []Box
 	currentPageFootnotes []Box
@@ -329,7 +371,7 @@ func newLayoutContext(html *tree.HTML, stylesheets []tree.CSS,
 	self.TargetCollector = tree.NewTargetCollector()
 	self.counterStyle = counterStyle
 	self.runningElements = make(map[string]map[int][]Box)
-	self.brokenOutOfFlow = make(map[Box]brokenBox)
+	self.brokenOutOfFlow = newBrokenBoxes()
 
 	// Cache
 	self.stringSet = make(map[string]map[int][]string)
